@@ -3,7 +3,7 @@
 # Verifies an independently written breaking change in its scratch worktree /tmp/seed-<id> and files it under /verif/seeded/<id>/.
 set -u
 id=$1; demosrc=$2; demodst=$3; demoargs=$4; shift 4; checks="$@"
-W=/tmp/seed-$id
+W=${SEEDW:-/tmp/seed-$id}
 export GOFLAGS=-mod=mod GOPROXY=off GOSUMDB=off GOTOOLCHAIN=local
 cd $W || exit 2
 git stash -q 2>/dev/null; git checkout -q -- . 2>/dev/null
